@@ -28,8 +28,9 @@ RULE = (
     "invalidated_by; cached spec_property; spec subclass T(S), plain subclass P(S), second level U(T)/Q(T); lazy/eager) "
     "rendered to source and exec'd, and a pool of instances (<= 12 quick, <= 40 thorough) reached by construction + "
     "setattr/del/re-set, including for one base state a single-position mutant for EVERY attribute position, the same "
-    "values in every class of the family, missing values, extra __dict__ entries on one side, and self-referential "
-    "states (repr only). Evaluated: ALL ordered pairs (==, !=), all triples (transitivity, on the real results), "
+    "values in every class of the family, missing values, extra __dict__ entries on one side, self-referential states and "
+    "cycles closed through bound methods of OTHER pool instances (mutual subscription, ring of three, handlers in lists; "
+    "repr only). Evaluated: ALL ordered pairs (==, !=), all triples (transitivity, on the real results), "
     "deepcopy(x)==x, type(x)(**own values)==x, repr(x) / compact repr / repr of a parent holding x. Non-trivial = a pair "
     "that is equal without being the same object, or differs in a compared attribute; distinct = distinct "
     "(class table, abstract states, result)."
@@ -410,6 +411,25 @@ def make_state(case, ns, st):
     return x
 
 
+def build_states(case, ns):
+    """All instances of the pool; references to OTHER pool instances (bound methods of peers: mutual
+    subscriptions, rings) are wired up once every instance exists."""
+    insts = [make_state(case, ns, {**st, "vals": {k: v for k, v in st["vals"].items() if not _is_peer(v)}})
+             for st in case["states"]]
+    for x, st in zip(insts, case["states"]):
+        for name, v in st["vals"].items():
+            if _is_peer(v):
+                if "peer" in v:
+                    x.__dict__[name] = getattr(insts[v["peer"][0]], v["peer"][1])
+                else:
+                    x.__dict__[name] = [getattr(insts[i], f) for i, f in v["peerlist"]]
+    return insts
+
+
+def _is_peer(v):
+    return isinstance(v, dict) and ("peer" in v or "peerlist" in v)
+
+
 def eq_states(case):
     return [i for i, st in enumerate(case["states"]) if not st.get("cyclic")]
 
@@ -445,12 +465,16 @@ def lines(case):
         same = [(n, s.compare, s.repr, s.init, s.do_not_copy) for n, s in real.items()] == [
             (a["name"], a["compare"], a["repr"], a["init"], a["dnc"]) for a in attrs]
         rl.append("ok" if same else "metadata-differs " + ",".join(real))
-    insts = [make_state(case, ns, st) for st in case["states"]]
+    insts = build_states(case, ns)
     for i, x in enumerate(insts):
         ml.append(" ".join(["st", str(i)] + tk.inst(x)))
         # scope flags of the theorems: instances are well formed by construction; the self-referential
         # states are the only ones outside the equality/copy theorems
-        rl.append(f"ok wf=1 acyclic={0 if case['states'][i].get('cyclic') else 1}")
+        # (a cycle closed through bound methods of peers is not visible in the abstract tree; such states are
+        # nevertheless only used for repr)
+        vals = case["states"][i]["vals"].values()
+        outside = any(isinstance(v, dict) and ("self" in v or "selflist" in v or "peerlist" in v) for v in vals)
+        rl.append(f"ok wf=1 acyclic={0 if outside else 1}")
     eqs = eq_states(case)
     import copy
 
@@ -590,8 +614,10 @@ def repr_skeleton(case, x):
             kind = f"bself:{FN_IDS['S.' + mm.group(1)]}"
         elif (mm := re.match(r"^<bound method (\w+) of <", val)):
             kind = f"bound:{FN_IDS['Helper.' + mm.group(1)]}"
-        elif (mm := re.match(r"^<bound method (\w+) of ", val)):
-            kind = f"bound:{FN_IDS['S.' + mm.group(1)]}"        # bound to another spec instance
+        elif (mm := re.match(r"^<bound method (\w+) of (.*)>$", val, re.S)):
+            # bound to another spec instance: its owner must be rendered compactly
+            compact = re.match(r"^(\w+)\((?:(\w+)=(.*), )?\.\.\.\)$", mm.group(2), re.S)
+            kind = f"bound:{FN_IDS['S.' + mm.group(1)]}" if compact else f"bound-owner-in-full:{mm.group(1)}"
         elif (mm := re.match(r"^(\w+)\((?:(\w+)=(.*), )?\.\.\.\)$", val, re.S)):
             k = "n" if mm.group(2) is None else ("m" if mm.group(3) == "MISSING" else "k")
             kind = f"compact:{mm.group(1)}:{k}"
@@ -678,7 +704,7 @@ def oracle(case):
     viol = []
     try:
         ns = build(case)
-        insts = [make_state(case, ns, st) for st in case["states"]]
+        insts = build_states(case, ns)
     except Exception as e:  # noqa: BLE001
         return [f"building the family/states raised {type(e).__name__}: {e}"]
     eqs = eq_states(case)
@@ -746,7 +772,7 @@ def oracle(case):
         names = [p.split("=")[0] for p in sk.split(" ")[1:]]
         if names != want or sk.split(" ")[0] != type(x).__name__:
             viol.append(f"repr(state {i}) lists {names}, repr-enabled attributes in declaration order are {want}")
-        for form in (lambda: x.__repr__(compact=True), lambda: x.__repr__(indent=True), lambda: x.__repr__(indent=False),
+        for form in (lambda: str(x), lambda: x.__repr__(compact=True), lambda: x.__repr__(indent=True), lambda: x.__repr__(indent=False),
                      lambda: repr([x]), lambda: repr({"k": x})):
             try:
                 form()
@@ -921,6 +947,24 @@ def gen_case(rng, tier):
         v = dict(base_vals)
         v[anyattrs[-1]] = {"selflist": True}
         states.append({"cls": rng.choice(cnames), "vals": v, "cyclic": True})
+        # cycles closed through BOUND METHODS of other instances (repr only): mutual subscription, a ring of
+        # three, handlers held in lists
+        def member(cn, **extra):
+            v = dict(base_vals)
+            v.update(extra)
+            return {"cls": cn, "vals": v, "cyclic": True}
+
+        a0 = len(states)
+        states.append(member("S", **{anyattrs[0]: {"peer": [a0 + 1, "meth"]}}))
+        states.append(member(rng.choice(cnames), **{anyattrs[0]: {"peer": [a0, "meth2"]}}))
+        r0 = len(states)
+        for i in range(3):
+            states.append(member(rng.choice(cnames), **{anyattrs[-1]: {"peer": [r0 + (i + 1) % 3, "meth"]}}))
+        l0 = len(states)
+        states.append(member("S", **{anyattrs[0]: {"peerlist": [[l0 + 1, "meth"], [l0, "meth2"]]}}))
+        states.append(member(rng.choice(cnames), **{anyattrs[-1]: {"peerlist": [[l0, "meth"]]}}))
+        # one-directional reference to a peer (no cycle): the owner is still rendered compactly
+        states.append({"cls": "S", "vals": {**base_vals, anyattrs[0]: {"peer": [0, "meth"]}}, "cyclic": True})
     case["states"] = states
     return case
 
@@ -928,8 +972,7 @@ def gen_case(rng, tier):
 def valid_case(case):
     try:
         ns = build(case)
-        for st in case["states"]:
-            make_state(case, ns, st)
+        build_states(case, ns)
         return True
     except Exception:  # noqa: BLE001
         return False
@@ -951,7 +994,7 @@ def shrink(case, at=None):
     for i in range(len(case["states"])):
         if len(case["states"]) > 2:
             st = [s for j, s in enumerate(case["states"]) if j != i]
-            if all(s.get("mutant_of") is None for s in st):
+            if all(s.get("mutant_of") is None and not any(_is_peer(v) for v in s["vals"].values()) for s in st):
                 yield {**case, "states": st}
 
 
